@@ -424,4 +424,54 @@ func registerRound5() {
 			Quick: 2, Thor: 3,
 		})
 	}
+
+	// ---------------------------------------------------------------- C11: a client that keeps sending one request
+	// after the other (each as soon as the previous one is answered) when Stop comes: what is served after Stop
+	// was called is bounded by what was in flight
+	regSpec(&Spec{
+		Name: "stop-with-client-that-keeps-sending", Props: []string{"C11", "C12"},
+		Conns:    []ConnSpec{{Ops: []string{"bind", "search", "bind", "search", "bind", "search", "bind", "search"}, Segs: []int{1, 1, 1, 1, 1, 1, 1, 1}, Sync: true, Read: "all"}},
+		StopWhen: "note:started-2", Extra: watchStarted(2),
+		Check: func(x *vrt.Sched, w *World) []Finding {
+			if x.Deadlock || x.Crash != nil || x.Horizon {
+				return nil
+			}
+			after, seen := 0, false
+			for _, l := range x.Log {
+				if strings.HasPrefix(l, "stop-called") {
+					seen = true
+				}
+				if seen && strings.HasPrefix(l, "h-enter") {
+					after++
+				}
+			}
+			if after > 2 {
+				return []Finding{{"C11", "requests keep being served after Stop was called: a client that keeps sending keeps its connection (and Stop) alive", fmt.Sprintf("%d handlers started after Stop was called; log %v", after, x.Log)}}
+			}
+			return nil
+		},
+		Quick: 2, Thor: 3,
+	})
+	// a request without a route on a server without default route, then another request, then Stop
+	regSpec(&Spec{
+		Name: "stop-after-an-unrouted-request-and-another", Props: []string{"C11", "C03"},
+		Srv:         SrvOpts{NoDefaultRoute: true, OnlyRoutes: []string{"bind", "unbind"}},
+		Conns:       []ConnSpec{{Ops: []string{"delete", "bind"}, Segs: []int{1, 1}, Expect: 2, End: "stay"}, {Ops: []string{"bind"}, Expect: 1, After: 1, End: "stay"}},
+		ClientsIdle: true, Quick: 2, Thor: 3,
+	})
+	// ---------------------------------------------------------------- C10 over TLS: an earlier handler still at work
+	// when the Unbind is read answers its client before the session ends
+	for _, kind := range []string{"listener", "starttls"} {
+		cs := ConnSpec{Ops: []string{"search", "unbind"}, Segs: []int{1, 1}, H: map[int]*HSpec{1: {Sleep: 10}}, Read: "all"}
+		srv := SrvOpts{}
+		if kind == "listener" {
+			cs.TLS, srv.TLS = "listener", getPKI().ServerCfg
+		} else {
+			cs.Ops, cs.Segs, cs.H = []string{"starttls", "search", "unbind"}, []int{1, 1}, map[int]*HSpec{2: {Sleep: 10}}
+		}
+		regSpec(&Spec{
+			Name: "handler-works-10s-after-unbind-tls-" + kind, Props: []string{"C10", "C08", "C13"},
+			Srv: srv, Conns: []ConnSpec{cs}, Quick: 2, Thor: 3,
+		})
+	}
 }
